@@ -56,6 +56,9 @@ class InitMethod(MethodDescriptor):
                         instance_attr_spec = instance_metadata.attrs[attr]
                         if instance_attr_spec.owner is not parent:
                             continue
+                        if not instance_attr_spec.init:
+                            # Not a constructor argument of the parent either.
+                            continue
                         if attr in kwargs:
                             # Values handed to the parent constructor are not
                             # copied there (see `copy_required` below), so
